@@ -44,6 +44,17 @@ func bigOf(n int64) *big.Int { return big.NewInt(n) }
 func u32(n uint32) []byte { return []byte{byte(n >> 24), byte(n >> 16), byte(n >> 8), byte(n)} }
 
 func enumItem(tag int, v uint32) *refwire.Item { return &refwire.Item{Tag: tag, Type: 5, Raw: u32(v)} }
+// opaqueText: text carried in positions the library keeps opaque. A peer need not write UTF-8 (ISO 8859-1 here): in the binary encoding
+// the bytes of such a value are kept as they are; XML and JSON documents can only carry valid text.
+var curEnc string
+
+func opaqueText(s string) string {
+	if curEnc == "ttlv" {
+		return s + " caf\xe9 \xff\xfe"
+	}
+	return s
+}
+
 func textItem(tag int, s string) *refwire.Item {
 	return &refwire.Item{Tag: tag, Type: 7, Raw: []byte(s)}
 }
@@ -61,7 +72,7 @@ func sampleOfType(t int, k int) *refwire.Item {
 	const tagV = 0x42000B // AttributeValue
 	switch t {
 	case 1:
-		return structItem(tagV, textItem(0x540005, "inner"))
+		return structItem(tagV, textItem(0x540005, opaqueText("inner")))
 	case 2:
 		return &refwire.Item{Tag: tagV, Type: 2, Raw: u32(uint32(7 + k))}
 	case 3:
@@ -73,7 +84,7 @@ func sampleOfType(t int, k int) *refwire.Item {
 	case 6:
 		return &refwire.Item{Tag: tagV, Type: 6, Raw: []byte{0, 0, 0, 0, 0, 0, 0, 1}}
 	case 7:
-		return &refwire.Item{Tag: tagV, Type: 7, Raw: []byte("text")}
+		return &refwire.Item{Tag: tagV, Type: 7, Raw: []byte(opaqueText("text"))}
 	case 8:
 		return &refwire.Item{Tag: tagV, Type: 8, Raw: []byte{1, 2, 3, 4, 5}}
 	case 9:
@@ -292,6 +303,7 @@ func TestDispatch(t *testing.T) {
 		cases = append(cases, cases[k])
 	}
 	for i, c := range cases {
+		curEnc = c.Enc
 		if i == n0 {
 			extendRegistry() // between the two passes
 		}
@@ -330,7 +342,7 @@ func TestDispatch(t *testing.T) {
 					probs = append(probs, "drift:operation-not-in-the-harness-table")
 					continue
 				} else {
-					payload = structItem(ptag, textItem(0x540010, "opaque"), &refwire.Item{Tag: 0x42000F, Type: 2, Raw: u32(5)})
+					payload = structItem(ptag, textItem(0x540010, opaqueText("opaque")), &refwire.Item{Tag: 0x42000F, Type: 2, Raw: u32(5)})
 					wantType = "*kmip.UnknownPayload"
 				}
 				kids := []*refwire.Item{enumItem(kmip.TagOperation, uint32(code))}
